@@ -335,6 +335,74 @@ def audit(ctx, f, recv):
                for x in asrc(recv, bounds[-1]).calls}) if bounds else ""), c.where)
 
 
+# ------------------------------------------------------------------------------------------ NO-TRUNC
+def no_trunc(ctx, f, recv):
+    """NO-TRUNC (added after seeded change C14): bytes moved from the handshake left-over into the message buffer must
+    not be dropped by the following `resize(total)`. For every `extend` of the buffer that is later resized to a
+    computed length T, the number of bytes taken (`drain(..k)`) is `min(T - buffer.len(), ..)`: the bound derives
+    from a subtraction of the buffer's current length from T. Otherwise surplus bytes (the start of the next
+    pipelined message) are taken out of the left-over and truncated away."""
+    cs = mir.calls(recv)
+    resizes = [c for c in cs if c.is_("resize") and "Vec" in c.callee and const_val(recv, c.args[1]) is None]
+    n = 0
+    for rz in resizes:
+        cont = place_id(recv, rz.args[0])
+        T = mir.root_local(recv, rz.args[1])
+        for ex in cs:
+            if not (ex.is_("extend", "extend_from_slice", "append") and place_id(recv, ex.args[0]) == cont):
+                continue
+            if rz.b not in mir.reachable(recv, [ex.b]):
+                continue
+            # what is extended from: a drain of another container
+            src = mir.origin(recv, ex.args[1])
+            if not (src[0] == "call" and src[1].is_("drain")):
+                continue
+            n += 1
+            kind, bounds = range_of(recv, src[1].args[1])
+            ok, why = False, "the drained range is not `..k`"
+            if kind == "RangeTo":
+                k = bounds[0]
+                se = asrc(recv, k, extra=("min",), follow_all_args=True)
+                ok = False
+                why = "k is not bounded by `%s - buffer.len()`" % (mir.local_name(recv, T) or "total")
+                # look for Sub(T, len(cont)) among the binary operations feeding k
+                work, seen = [k], set()
+                while work:
+                    op = work.pop()
+                    o = mir.origin(recv, op)
+                    key = repr(o)[:200]
+                    if key in seen:
+                        continue
+                    seen.add(key)
+                    if o[0] == "call" and o[1].is_("min") and "cmp" in o[1].callee:
+                        work.extend(o[1].args)
+                    elif o[0] == "rv" and o[1][0] == "bin" and o[1][1] in ("Sub", "SubWithOverflow"):
+                        a, b_ = o[1][2], o[1][3]
+                        lb = mir.origin(recv, b_)
+                        if mir.root_local(recv, a) == T and lb[0] == "call" and lb[1].is_("len") and place_id(recv, lb[1].args[0]) == cont:
+                            ok, why = True, "k = min(%s - buffer.len(), ..)" % (mir.local_name(recv, T) or "total")
+                    elif o[0] == "place" and not o[1][1]:
+                        d = mir.single_def(recv, o[1][0])
+                        if d and d[0] == "assign" and d[4][0] == "bin" and d[4][1] in ("Sub", "SubWithOverflow"):
+                            a, b_ = d[4][2], d[4][3]
+                            lb = mir.origin(recv, b_)
+                            if mir.root_local(recv, a) == T and lb[0] == "call" and lb[1].is_("len") and place_id(recv, lb[1].args[0]) == cont:
+                                ok, why = True, "k = min(%s - buffer.len(), ..)" % (mir.local_name(recv, T) or "total")
+                        elif d and d[0] == "assign" and d[4][0] == "use":
+                            work.append(d[4][1])
+                    elif o[0] == "place" and o[1][1]:
+                        # `.0` of a checked subtraction
+                        d = mir.single_def(recv, o[1][0])
+                        if d and d[0] == "assign" and d[4][0] == "bin" and d[4][1] in ("Sub", "SubWithOverflow"):
+                            a, b_ = d[4][2], d[4][3]
+                            lb = mir.origin(recv, b_)
+                            if mir.root_local(recv, a) == T and lb[0] == "call" and lb[1].is_("len") and place_id(recv, lb[1].args[0]) == cont:
+                                ok, why = True, "k = min(%s - buffer.len(), ..)" % (mir.local_name(recv, T) or "total")
+            ctx.ob("NO-TRUNC", "extend(%s)<-drain(%s)" % (pid_str(recv, cont), pid_str(recv, place_id(recv, src[1].args[0]))), ok,
+                   why if ok else why + ": bytes beyond the end of this message are taken from the left-over and then cut off by resize(%s)" % (mir.local_name(recv, T) or "total"), ex.where)
+    ctx.floor("NO-TRUNC", "left-over drains feeding a buffer that is resized afterwards", n, 1)
+
+
 # ------------------------------------------------------------------------------------------ FDS-FIRST
 def fds_first(ctx, f, recv):
     cs = mir.calls(recv)
@@ -622,6 +690,7 @@ def run(ctx):
     f = ctx.facts("K1")
     recv = rules_receive(ctx, f)
     audit(ctx, f, recv)
+    no_trunc(ctx, f, recv)
     fds_first(ctx, f, recv)
     seq_rules(ctx, f, recv)
     handoff(ctx, f, recv)
